@@ -4,6 +4,7 @@
 package packfile
 
 import (
+	"bytes"
 	"encoding/binary"
 	"encoding/hex"
 	"errors"
@@ -176,19 +177,22 @@ func (r *PackfileReader) ReadObject() (objType int, b []byte, err error) {
 	if err != nil {
 		return
 	}
-	var read uint64 = 0
-	b = make([]byte, int(u))
-	for read < u {
-		n, err := r.r.Read(b[read:])
-		if err != nil && err != io.EOF {
-			return 0, nil, err
-		}
-		read += uint64(n)
-		if errors.Is(err, io.EOF) && read < u {
-			return 0, nil, io.ErrUnexpectedEOF
-		}
+	if u > math.MaxInt64 {
+		return 0, nil, fmt.Errorf("object size %d is too large", u)
 	}
-	return
+	// the size is (possibly hostile) input: the buffer grows as the bytes actually arrive
+	var buf bytes.Buffer
+	if u <= 1<<20 {
+		buf.Grow(int(u))
+	}
+	_, err = io.CopyN(&buf, r.r, int64(u))
+	if err == io.EOF {
+		return 0, nil, io.ErrUnexpectedEOF
+	}
+	if err != nil {
+		return 0, nil, err
+	}
+	return objType, buf.Bytes(), nil
 }
 
 func (r *PackfileReader) Close() error {
